@@ -72,3 +72,10 @@ From PFL Require Import Model.Enfa Proofs.Rational.
 Theorem C05_accepts_code_path : forall (c : nat) (r : re) (w : list N), accepts (re_enfa_at c r) w = true <-> den r w.
 Proof. exact re_enfa_accepts. Qed.
 Print Assumptions C05_accepts_code_path.
+
+(* str(regex): the fully parenthesised text of Regex.__repr__ (Model/RegexParse.pr_py) is read back by the reference parser to the same
+   expression; the token sequence of str() on pyformlang's own tree is compared with pr_py on every generated expression *)
+From PFL Require Import Proofs.RegexStr.
+Theorem C05_str_round_trip : forall r : re, no_empty r -> parse_regex (pr_py r) = Some r.
+Proof. exact str_round_trip. Qed.
+Print Assumptions C05_str_round_trip.
